@@ -140,7 +140,7 @@ pub fn property() -> Property {
                or a NumClusters request with 1 < requested < n or requested > n; distinct = distinct canonical JSON of the case",
         assumptions: vec![
             "f64 only; record rows are contiguous (KdTree documents a panic otherwise); 0 < k < n (documented panic otherwise), so sparse kernels need n >= 2; n = 0 and n = 1 are covered by two small enumerations (dense kernels)".into(),
-            "Gaussian kernel function = exp(-|x-y|^2 / eps) (pinned by linfa's own gaussian_test), polynomial degree in {1,2,3}".into(),
+            "Gaussian kernel function = exp(-|x-y|^2 / eps) (pinned by linfa's own gaussian_test) with eps in 10^[-2,2]; polynomial constant in [0,3], degree in {1,2,3}; records: p in 1..=4 columns, |coordinates| below about 8".into(),
             "kernel entries vs the independent formula: |a-b| <= 64 eps * scale (+1e-300), scale = sum |x_i y_i| (+|c|) for linear/polynomial (propagated through the power), (1+t) exp(-t) with t = |x-y|^2/eps for Gaussian".into(),
             "symmetry of the dense matrix, equality of sparse stored values with the dense ones, column/diagonal/upper-triangle vs the densified matrix: bit equality (same arithmetic / plain copies)".into(),
             "sum and dot vs the densified matrix: (64 + 2n) eps * sum of absolute terms".into(),
@@ -154,12 +154,12 @@ pub fn property() -> Property {
             "cluster ids are not compared, only the partition and the number of distinct ids".into(),
         ],
         subs: vec![
-            prop_sub("kernel", 80000, 250000, |t: Tier| kernel_strategy(t.pick(24, 60)), check_kernel)
+            prop_sub("kernel", 50000, 250000, |t: Tier| kernel_strategy(t.pick(24, 60)), check_kernel)
                 .chunks(16)
             .require(&["knn_relation_asymmetric", "knn_tie_at_rank_k"]),
             prop_sub(
                 "threshold",
-                160000,
+                100000,
                 500000,
                 |t: Tier| hier_strategy(t.pick(24, 60), theta().prop_map(Crit::Dist)),
                 check_hier,
@@ -168,7 +168,7 @@ pub fn property() -> Property {
             .require(&["theta_equals_a_pairwise_dissimilarity", "expect_strictly_between"]),
             prop_sub(
                 "num_clusters",
-                40000,
+                25000,
                 120000,
                 |t: Tier| hier_strategy(t.pick(24, 60), any::<u16>().prop_map(Crit::Num)),
                 check_hier,
